@@ -145,7 +145,14 @@ def checkPost (σ : St) (now : Int) (batch : List PostAlert) (code : String) (cu
                 (if a.startsAt < o.endsAt ∧ o.startsAt < a.endsAt then
                    (if c.startsAt = min o.startsAt a.startsAt then [Msg.tag "post:overlap"]
                     else [Msg.propfail "overlap_keeps_earliest_start" "start-not-earliest" s!"{ls} old={showA o} new={showA a} stored={showA c}"])
-                 else [Msg.tag "post:disjoint"])
+                 else
+                   -- no overlap: the submission is stored as it is.  A re-fire that starts at (or after) the very instant the
+                   -- stored alert ended is a new episode and keeps its own start (refire_after_end_starts_anew)
+                   (if o.endsAt ≤ a.startsAt ∧ a.startsAt ≤ a.endsAt then
+                      (if c.startsAt = a.startsAt then [Msg.tag (if a.startsAt = o.endsAt then "post:refire-at-old-end" else "post:refire-after-old-end")]
+                       else [Msg.propfail "refire_after_end_starts_anew" "merged-without-overlap"
+                               s!"{ls} old={showA o} new={showA a} stored={showA c}: the stored alert ended at {o.endsAt}, the submission starts at {a.startsAt} and must keep that start"])
+                    else [Msg.tag "post:disjoint"]))
                 ++ (if p.endsAt.isNone then
                      (if (o.timeout → c.endsAt = now + σ.rt) ∧ now + σ.rt ≤ c.endsAt then [Msg.tag "post:timeout-resend"]
                       else [Msg.propfail "timeout_end_pushed_forward" "timeout-end" s!"{ls} old={showA o} stored={showA c} now+rt={now + σ.rt}"])
@@ -199,7 +206,13 @@ def step (σ : St) (op obs : List String) : St × List Msg :=
     let batch := (b.splitOn "|").filterMap parsePost
     let (store', c) := post nameOK now σ.rt σ.store batch
     let cur := parseAlerts dmp
-    let pf := checkPost σ now batch code cur
+    -- C13/C06: an empty-valued label takes no part in an alert's identity (removeEmpty_spec): what the provider holds
+    -- (and hands to the dispatcher, whose group_by then sees it) never carries one
+    let pfEmpty : List Msg := cur.filterMap fun a =>
+      if a.labels.any (fun kv => kv.2 = "") then
+        some (Msg.propfail "removeEmpty_spec" "empty-label-stored" s!"stored alert {showLabels a.labels} carries an empty-valued label")
+      else none
+    let pf := checkPost σ now batch code cur ++ pfEmpty
     let t : List Msg := (if c = .badRequest then [.tag "post:400"] else []) ++
       (if batch.any (fun p => p.labels.any fun kv => kv.2 = "") then [.tag "post:empty-valued-label"] else [])
     ({ σ with store := store', prev := cur, lastTick := none },
